@@ -108,6 +108,9 @@ COMBOS = [
     {"OMEGA": "$OMEGA 0.03 ; IIV_CL\n 0.03 ; IIV_V\n", "OMEGA2": ""},
     {"OMEGA": "$OMEGA BLOCK(1) 0.03\n", "OMEGA2": "$OMEGA BLOCK(1) SAME\n"},
     {"SIGMA": "$SIGMA 0.01 FIX\n"},
+    # a value after a repeated item (the third eta / second epsilon is not used by the code)
+    {"OMEGA": "$OMEGA (0.03)x2 0.05\n", "OMEGA2": ""},
+    {"SIGMA": "$SIGMA (0.01)x2 0.3\n"},
     {"THETA": "$THETA (0.005 FIX) ; TVCL\n"},
 ]
 
